@@ -347,6 +347,7 @@ func checkCase(c *Case, count bool) error {
 	parked := make(chan struct{})
 	release := make(chan struct{})
 	writerDone := make(chan struct{})
+	var snap *fox.Txn // a read-only snapshot of the parked write transaction, read by other goroutines while it stays parked
 	go func() {
 		defer close(writerDone)
 		body := func(txn *fox.Txn) {
@@ -365,8 +366,11 @@ func checkCase(c *Case, count bool) error {
 				}
 			case "after-snapshot":
 				_, _ = txn.Handle("GET", "/parked/snap", h)
+				// more parameters and a deeper tree than anything committed: the snapshot's shape exceeds its base tree's
+				_, _ = txn.Handle("GET", "/parked/snap/{a}/{b}/{c}/{d}/{e}/{f}/{g}/x/y/z", h)
 				s := txn.Snapshot()
 				s.Has("GET", "/parked/snap")
+				snap = s
 			}
 			close(parked)
 			<-release
@@ -388,6 +392,29 @@ func checkCase(c *Case, count bool) error {
 	}
 	// every read entry point, each in its own goroutine, while the writer is parked
 	rs := reads(f, host)
+	if snap != nil {
+		req := httptest.NewRequest("GET", "http://"+host+"/parked/snap/1/2/3/4/5/6/7/x/y/z", nil)
+		rs = append(rs,
+			read{"snapshot of the parked transaction: Has/Route/Len", func() { snap.Has("GET", "/parked/snap"); snap.Route("GET", "/static"); snap.Len() }},
+			read{"snapshot of the parked transaction: Reverse", func() {
+				snap.Reverse("GET", host, "/parked/snap/1/2/3/4/5/6/7/x/y/z")
+				snap.Reverse("GET", host, "/r/1/x")
+			}},
+			read{"snapshot of the parked transaction: Lookup", func() {
+				if _, cc, _ := snap.Lookup(rt.Writer(httptest.NewRecorder(), req), req); cc != nil {
+					cc.Close()
+				}
+			}},
+			read{"snapshot of the parked transaction: Iter", func() {
+				it := snap.Iter()
+				for range it.All() {
+				}
+				for range it.Reverse(it.Methods(), host, "/parked/snap/1/2/3/4/5/6/7/x/y/z") {
+				}
+			}},
+			read{"snapshot of the parked transaction: Snapshot", func() { snap.Snapshot().Has("GET", "/static") }},
+		)
+	}
 	var done []chan struct{}
 	var names []string
 	for _, r := range rs {
